@@ -53,8 +53,9 @@ mod native {
             Metainfo::create_file(&dir.join(&name), &tracker).expect("create_file");
             let m = Metainfo::from_file(Path::new(&format!("{}.torrent", name)));
             if *len == 0 {
-                // an empty file has no pieces; whatever parse says about such a torrent, it must not be a wrong non-empty one
-                if let Ok(m) = m { assert_eq!(m.pieces_num(), 0, "len 0"); assert_eq!(m.total_length(), 0, "len 0"); }
+                // an empty file has no chunks: its torrent parses back to the name, length 0 and no piece hashes
+                let m = m.unwrap_or_else(|e| panic!("the torrent created for an empty file does not parse back: {:?}", e));
+                assert_eq!(m.name, name, "name, len 0"); assert_eq!(m.pieces_num(), 0, "len 0"); assert_eq!(m.total_length(), 0, "len 0");
                 checked += 1;
                 continue;
             }
@@ -72,6 +73,23 @@ mod native {
             checked += 1;
         }
         assert!(checked == total);
+        // the same file again after it changed (grew, then shrank): the torrent created last describes the file as it is now
+        for (round, len) in [3 * l + 5, 10usize, l + 1, 1].iter().enumerate() {
+            let name = "again.bin".to_string();
+            let data: Vec<u8> = (0..*len).map(|i| ((i * 13 + round) % 251) as u8).collect();
+            std::fs::write(dir.join(&name), &data).unwrap();
+            Metainfo::create_file(&dir.join(&name), &tracker).expect("create_file");
+            let m = Metainfo::from_file(Path::new(&format!("{}.torrent", name)))
+                .unwrap_or_else(|e| panic!("the torrent re-created for a file that is now {} bytes long does not parse back: {:?}", len, e));
+            assert_eq!(m.name, name, "name, re-created, len {}", len);
+            assert_eq!(m.total_length(), *len as u64, "length, re-created, len {}", len);
+            assert_eq!(m.pieces_num(), (*len + l - 1) / l, "number of pieces, re-created, len {}", len);
+            for (i, chunk) in data.chunks(l).enumerate() {
+                let mut h = sha1_smol::Sha1::new();
+                h.update(chunk);
+                assert_eq!(m.piece(i), &h.digest().bytes(), "SHA-1 of chunk {} of a re-created {}-byte file", i, len);
+            }
+        }
         std::env::set_current_dir("/").unwrap();
         let _ = std::fs::remove_dir_all(&dir);
     }
